@@ -1,4 +1,5 @@
-(** Correspondence record for C18: the metamorphic triple. *)
+(** Correspondence record for C18: the metamorphic triple base / front / placed,
+    plus [norem], the placed line without its trailing "--" and remainder. *)
 From InvokeVerif Require Export Corr.ParserCorr Spec.C18Spec.
 
 Record case := mk {
@@ -11,6 +12,7 @@ Record case := mk {
   c_rem : option (list string);
   c_base : result gobs;
   c_front : result gobs;
+  c_norem : result gobs;      (* the placed line without the trailing "--" :: rem *)
   c_placed : result gobs
 }.
 
@@ -28,12 +30,14 @@ Definition corr (c : case) : bool :=
   res_eqb gobs_eqb (model_program (c_cs c) (base_argv (c_groups c))) (c_base c)
   && res_eqb gobs_eqb (model_program (c_cs c) (front_argv (c_groups c) (c_opt c))) (c_front c)
   && res_eqb gobs_eqb
+       (model_program (c_cs c) (placed_argv (c_groups c) (c_opt c) (c_j c) None)) (c_norem c)
+  && res_eqb gobs_eqb
        (model_program (c_cs c) (placed_argv (c_groups c) (c_opt c) (c_j c) (c_rem c)))
        (c_placed c).
 
 Definition spec (c : case) : bool :=
   spec_ok (c_cs c) core_ctx (c_starts c) (c_groups c) (c_opt c) (c_j c) (c_flags c) (c_rem c)
-          (c_base c) (c_front c) (c_placed c).
+          (c_base c) (c_front c) (c_norem c) (c_placed c).
 
 (** the model judged by the spec (bounded sweeps) *)
 (** every single-token group that names a task counts as a task name here *)
@@ -48,4 +52,5 @@ Definition model_spec (cs : list ctxspec) (groups : list (list string)) (opt : l
   spec_ok cs core_ctx (all_starts cs groups) groups opt j flags rem
           (model_program cs (base_argv groups))
           (model_program cs (front_argv groups opt))
+          (model_program cs (placed_argv groups opt j None))
           (model_program cs (placed_argv groups opt j rem)).
